@@ -9,6 +9,13 @@ COMMON_NOTE = ("Trusted: Coq 8.16.1 kernel and its VM (vm_compute; no native_com
                "(virtual clock, scheduler, canonicalisation, case printer). ")
 # id -> (text, note, technique, design_ref)
 CLAIMED = {
+ "C16": ("Theorems for ANY fault set over the Gallina image of the block-exit protocol (try/finally of __aexit__, Transaction.commit/rollback over all backends, "
+         "LockTransactionBackend commit/rollback/_unlock_updates): the task always leaves the transaction; every lock a backend holds gets its own release command on "
+         "the rollback path of any number of backends and on a backend's commit path, and a lock key survives only if a release command itself failed. "
+         "fault_body_atomic and the multi-backend commit composition are NOT proved: they are covered only by the correspondence, which enumerates EVERY single fault "
+         "position (and pairs) of 36 program/mode combinations against the real code with raising wrappers.",
+         "A fault = the command raises with no effect; single task; set iteration order of lock keys taken from the clean run; partial (see Properties/C16.v header).",
+         "Coq proof (release protocol for arbitrary fault sets) + exhaustive single/pair fault enumeration against the real code", "3/C16"),
  "C03": ("Theorems over the Gallina image of TransactionBackend (overlay, pending deletes, commit, rollback) on the TTL-map spec: no transactional command "
          "touches the underlying store; rollback returns it unchanged; commit makes every key read what the transaction's view showed, hence (with C04's "
          "simulation) exactly what direct application of the same writes shows, and a key written with a TTL is committed with exactly its deadline. The real "
